@@ -30,6 +30,7 @@ var commonTrusted = []string{
 var commonAssume = []string{
 	"only the non-test files of the single package in /repo are analysed; no build tags exist",
 	"the structural clauses decided are necessary conditions of the property; numeric clauses listed under not_decided are out of reach of a sound static argument here",
+	"E7.expfloor: the lower bound of the exponent inside RoundingMode.round is decided in mathematical integers for that variable, i.e. assuming the `exp++` on the carry path does not overflow int16 (it would need an exponent of 32767 there)",
 }
 
 var propMetas = []*propMeta{
